@@ -10,7 +10,7 @@ sys.path.insert(0, os.path.join(VERIF, "tools"))
 import alpha  # noqa
 
 HARNESS_DIR = os.path.join(VERIF, "harness")
-HARNESS = os.path.join(VERIF, ".cache", "target", "release", "vjx-harness")
+HARNESS = os.environ.get("VJX_HARNESS") or os.path.join(VERIF, ".cache", "target", "release", "vjx-harness")
 LEAN_DIR = os.path.join(VERIF, "lean", "VueJsx")
 DRIVER = os.path.join(LEAN_DIR, ".lake", "build", "bin", "vjxmodel")
 NPROC = max(1, min(16, os.cpu_count() or 4))
@@ -46,23 +46,44 @@ def _chunks(xs, n):
     return [xs[i:i + k] for i in range(0, len(xs), k)]
 
 
+CASE_TIMEOUT_S = float(os.environ.get("VJX_CASE_TIMEOUT", "5"))   # one case normally takes milliseconds
+MAX_TIMEOUTS_PER_CHUNK = 3
+
+
 def _run_harness_chunk(args):
     mode, cases = args
     inp = "\n".join(json.dumps(c) for c in cases) + "\n"
-    p = subprocess.run([HARNESS, mode], input=inp.encode("utf-8", "replace"), capture_output=True, env=dict(os.environ, RUST_BACKTRACE="0"))
+    env = dict(os.environ, RUST_BACKTRACE="0")
+    timed_out = False
+    try:
+        p = subprocess.run([HARNESS, mode], input=inp.encode("utf-8", "replace"), capture_output=True, env=env,
+                           timeout=20 + CASE_TIMEOUT_S + 0.02 * len(cases))
+        out, rc = p.stdout, p.returncode
+    except subprocess.TimeoutExpired as e:
+        out, rc, timed_out = (e.stdout or b""), None, True
     recs = []
-    for line in [l for l in p.stdout.decode("utf-8", "replace").split("\n") if l]:
+    for line in [l for l in out.decode("utf-8", "replace").split("\n") if l]:
         try:
             recs.append(json.loads(line))
         except Exception:
             recs.append({"bad_line": line[:200]})
-    died = p.returncode != 0 or len(recs) != len(cases)
+    died = timed_out or rc != 0 or len(recs) != len(cases)
     if died:
-        # the process aborted (e.g. native stack overflow): isolate the culprit(s) one case at a time
-        recs = []
+        # the process aborted (e.g. native stack overflow) or did not return (a loop): isolate the culprit(s) one case at a
+        # time, each under a wall-clock limit; after a few timeouts the rest of the chunk is reported as not run
+        recs, n_to = [], 0
         for c in cases:
-            q = subprocess.run([HARNESS, mode], input=(json.dumps(c) + "\n").encode("utf-8", "replace"), capture_output=True,
-                               env=dict(os.environ, RUST_BACKTRACE="0"))
+            if n_to >= MAX_TIMEOUTS_PER_CHUNK:
+                recs.append({"id": c.get("id"), "not_run": True})
+                continue
+            try:
+                q = subprocess.run([HARNESS, mode], input=(json.dumps(c) + "\n").encode("utf-8", "replace"), capture_output=True,
+                                   env=env, timeout=CASE_TIMEOUT_S)
+            except subprocess.TimeoutExpired:
+                n_to += 1
+                recs.append({"id": c.get("id"), "abort": True, "timeout": True, "returncode": None,
+                             "stderr": "no result within %.0f s (the transform does not return on this input)" % CASE_TIMEOUT_S})
+                continue
             if q.returncode != 0 or not q.stdout.strip():
                 recs.append({"id": c.get("id"), "abort": True, "returncode": q.returncode,
                              "stderr": q.stderr.decode("utf-8", "replace")[-300:]})
